@@ -14,7 +14,7 @@ use crate::util::*;
 pub const PROP: Prop = Prop {
     id: "C14",
     level: "exploration",
-    rule: "(round 8: 40 odd variant and field names - raw-identifier look-alikes, other alphabets, empty, delimiters, notations - in eight positions) (rounds 6-7, serialization side: maps whose distinct keys serialize alike, hand-written impls with repeated keys; every collector kind - seq, tuple, tuple struct, tuple variant, map, struct, struct variant - with 0-4 written items, announced length right or off as after skipped fields, and derived variants that lose fields to skip; every integer type at every power of two and ten) every value drawn for every type of the C04 family is serialized and compared with a shape function written from the crate documentation (an independent serde::Serializer builds a tagged tree of Serde categories; the shape function maps it to the documented S-expression); for the acceptance clause every sequence/tuple node of that tree is in turn flipped list<->vector (must deserialize to the original value), given an improper tail (each non-null atom kind; must fail with a data error) and replaced by a value of a wrong kind (string, number, char, bool, keyword, symbol, nil, bytes, float; must fail with a data error); plus, serialization side only, maps whose distinct keys serialize alike (a key struct with a skipped field, an untagged enum key) and hand-written Serialize impls that emit repeated keys through serialize_entry and through serialize_key/serialize_value: one cell per entry, in order; non-trivial = at least one sequence/tuple/map/variant node below the root; distinct by digest of (type, value)",
+    rule: "(round 9: ten kinds of odd map key - None, (), empty sequence, unit struct, PhantomData, Some, tuple, nested option - through serialize_entry and through serialize_key/serialize_value) (round 8: 40 odd variant and field names - raw-identifier look-alikes, other alphabets, empty, delimiters, notations - in eight positions) (rounds 6-7, serialization side: maps whose distinct keys serialize alike, hand-written impls with repeated keys; every collector kind - seq, tuple, tuple struct, tuple variant, map, struct, struct variant - with 0-4 written items, announced length right or off as after skipped fields, and derived variants that lose fields to skip; every integer type at every power of two and ten) every value drawn for every type of the C04 family is serialized and compared with a shape function written from the crate documentation (an independent serde::Serializer builds a tagged tree of Serde categories; the shape function maps it to the documented S-expression); for the acceptance clause every sequence/tuple node of that tree is in turn flipped list<->vector (must deserialize to the original value), given an improper tail (each non-null atom kind; must fail with a data error) and replaced by a value of a wrong kind (string, number, char, bool, keyword, symbol, nil, bytes, float; must fail with a data error); plus, serialization side only, maps whose distinct keys serialize alike (a key struct with a skipped field, an untagged enum key) and hand-written Serialize impls that emit repeated keys through serialize_entry and through serialize_key/serialize_value: one cell per entry, in order; non-trivial = at least one sequence/tuple/map/variant node below the root; distinct by digest of (type, value)",
     assumptions: &[
         "the empty list is the empty proper list, so it is not used as a 'wrong kind'",
         "tuple variants are lists headed by the variant name; only Seq and Tuple/TupleStruct nodes are flipped",
